@@ -5,11 +5,6 @@ From TL Require Import Lib.Base Model.OutputTypes Gen.OutputGen Model.Output Mod
 From Coq Require Import ZArith Lia.
 Local Open Scope string_scope.
 
-(* the json.dumps arguments found in the source are the ones the layout theorems are about *)
-Lemma json_ser_facts : json_dumps_uniform = true /\ json_dumps_ensure_ascii = true /\ json_dumps_sort_keys = false
-                       /\ json_dumps_item_sep = "," /\ json_dumps_key_sep = ": " /\ (1 <= json_dumps_indent)%nat.
-Proof. repeat split; try reflexivity. vm_compute. lia. Qed.
-
 Lemma length_app (a b : string) : String.length (a ++ b) = (String.length a + String.length b)%nat.
 Proof. induction a as [|x a IH]; cbn [append String.length]; [reflexivity|]. now rewrite IH. Qed.
 
